@@ -9,6 +9,7 @@ import (
 
 	"verifharness/drv/c14"
 	"verifharness/drv/c15"
+	"verifharness/drv/c16"
 	"verifharness/drv/c17"
 	"verifharness/drv/c19"
 	"verifharness/drv/c20"
@@ -48,6 +49,8 @@ func main() {
 		c14.Run(os.Args[2], os.Args[3])
 	case "c14stress":
 		c14.Stress(os.Args[2], atoi(os.Args[3]))
+	case "c16":
+		c16.Run(os.Args[2], os.Args[3])
 	case "c19x":
 		a := os.Args
 		c19.Explicit(a[2], a[3], atoi(a[4]), atoi(a[5]), atoi(a[6]), a[7] == "1")
